@@ -1689,4 +1689,155 @@ class C07(Prop):
         return [io[0][:3]] if io else ["noout"]
 
 
-REGISTRY = {"C06": C06, "C07": C07, "C08": C08, "C09": C09, "C10": C10, "C11": C11, "C01": C01, "C18": C18, "C12": C12, "C03": C03, "C04": C04, "C05": C05, "C13": C13, "C14": C14}
+class C16(Prop):
+    id = "C16"
+    generated = ["Constants", "Ambient"]
+    rule = ("H: barrier-scripted interleavings replayed on real threads: each step is either a failing C-table call on thread t "
+            "(raw_name_from_str with four kinds of bad names, add_to_answer with bad text: five distinct messages, chosen so that concurrent "
+            "threads never hold the same message) or error_description on thread t; quick: ALL interleavings of 2 threads x 3 steps and a "
+            "random sample of 3-4 thread schedules of 6-14 steps; thorough adds all interleavings of 3 threads x 2 steps and longer random "
+            "ones. The strings read must equal the model's. Non-trivial: at least one read happens after a failure of ANOTHER thread that "
+            "followed the reader's own failure; distinct = distinct schedule.")
+    strength = ("full statement for the model: for every interleaving of any number of threads each read returns the reader's most recent "
+                "failure (C16_thread_private, induction over the interleaving); the source declares the slot thread_local "
+                "(cerr_is_thread_local on the regenerated inventory). The Rust runtime's thread_local! and real-thread behaviour are "
+                "validated by the scripted schedules, not proved.")
+    assumptions = ["Rust's thread_local! gives each thread its own RefCell<CErr>", "the description pointer is read on the thread that produced it"]
+
+    def sched(self, rng, nthreads, steps):
+        last = {}
+        out = []
+        for t in steps:
+            if t not in last or rng.random() < 0.55:
+                others = set(v for u, v in last.items() if u != t)
+                kinds = [k for k in range(5) if k not in others]
+                k = rng.choice(kinds)
+                last[t] = k
+                out.append("%d:f%d" % (t, k))
+            else:
+                out.append("%d:r" % t)
+        # every thread that failed reads once at the end
+        for t in sorted(last):
+            out.append("%d:r" % t)
+        return "H,%d,%s" % (nthreads, ".".join(out))
+
+    def gen(self, rng, tier):
+        import itertools
+        cases = []
+        k = 0
+        # all interleavings of 2 threads x 3 steps
+        for order in set(itertools.permutations([0, 0, 0, 1, 1, 1])):
+            cases.append(Case("h%d" % k, self.sched(rng, 2, list(order)), {"family": "2x3-exhaustive"}))
+            k += 1
+        if tier == "thorough":
+            for order in set(itertools.permutations([0, 0, 1, 1, 2, 2])):
+                cases.append(Case("h%d" % k, self.sched(rng, 3, list(order)), {"family": "3x2-exhaustive"}))
+                k += 1
+        for _ in range(60 if tier == "quick" else 1500):
+            n = rng.choice([2, 3, 4])
+            steps = [rng.randrange(n) for _ in range(rng.randint(6, 14))]
+            cases.append(Case("h%d" % k, self.sched(rng, n, steps), {"family": "random-%d" % n}))
+            k += 1
+        return cases
+
+    def oracle(self, case, io):
+        w = no_crash(io)
+        if w:
+            return w
+        o = io[0]
+        if not o.startswith("H["):
+            return "schedule did not complete: " + o
+        toks = o[2:-1].split(" ")
+        steps = case.line.split(",")[2].split(".")
+        texts = ["Invalid_name_in_a_DNS_record:_Spurious_dot_in_a_label", "Invalid_name_in_a_DNS_record:_Label_too_long",
+                 "Invalid_name_in_a_DNS_record:_Name_too_long", "Invalid_name_in_a_DNS_record:_Non-ASCII_character_in_a_label", "Parse_error"]
+        last = {}
+        for st, tok in zip(steps, toks):
+            t, a = st.split(":")
+            if a[0] == "f":
+                last[t] = texts[int(a[1:]) % 5]
+                if tok != "rc=-1":
+                    return "failing table call returned %s instead of -1" % tok
+            else:
+                exp = last.get(t, "nofail")
+                if tok != exp:
+                    return "thread %s read %r, its most recent failure was %r" % (t, tok, exp)
+        return None
+
+    def classify(self, case, why):
+        return "cerr"
+
+    def nontrivial(self, case, io):
+        steps = case.line.split(",")[2].split(".")
+        lastfail = {}
+        for i, st in enumerate(steps):
+            t, a = st.split(":")
+            if a[0] == "f":
+                lastfail[t] = i
+            elif t in lastfail and any(s.split(":")[0] != t and s.split(":")[1][0] == "f" for s in steps[lastfail[t] + 1:i]):
+                return hash(case.line)
+        return None
+
+    def tags(self, case, io):
+        return ["steps=%d" % len(case.line.split(",")[2].split("."))]
+
+
+class C17(Prop):
+    id = "C17"
+    generated = ["Constants", "Ambient"]
+    rule = ("HP: for each of parse, uncompress, compress, rename and record synthesis: f(x) alone, f(x) after f(y) on the same thread, f(x) "
+            "in a context object reused after f(y), and f(x) on 8 threads concurrently with f(y), must all be byte-identical and equal to the "
+            "model's f(x). (y, x) pairs are chosen to stress leakage: y fills the 32-entry suffix table / is rejected half-way / caches a "
+            "question / shares suffixes with x. Non-trivial: x is accepted and y differs from x; distinct = distinct (f, x, y).")
+    strength = ("thin: purity of the model is definitional (C17_amb_independent, C17_history_independent), empty packets differ only in "
+                "the transaction id (C17_empty_only_tid_random); the content is the regenerated inventory (ambient_inventory, "
+                "dict_fresh_per_call: no static state other than the thread-local C error slot; rng only in ParsedPacket::empty; a fresh "
+                "SuffixDict per compress/rename call) plus the validation that the model is the code under sequential and concurrent use.")
+    assumptions = ["absence of hidden state is established on a token-level scan of src/**/*.rs (gen/translate.py), not on rustc's view of the program"]
+
+    def gen(self, rng, tier):
+        n = 60 if tier == "quick" else 1500
+        cases = []
+        plain = [b for (_, b) in plain_messages(rng, n, "quick")]
+        comp = [b for (b, m) in valid_packets(rng, n)]
+        k = 0
+
+        def add(fam, opx, opy):
+            nonlocal k
+            cases.append(Case("p%d" % k, "HP|%s|%s" % (opx, opy), {"family": fam}))
+            k += 1
+        for i in range(n):
+            x, y = rng.choice(comp), rng.choice(comp)
+            add("parse", "P," + hx(x), "P," + hx(y if rng.random() < 0.7 else y[:-3]))
+            add("uncompress", "U,%s,12" % hx(x), "U,%s,12" % hx(y))
+            x, y = rng.choice(plain), rng.choice(plain)
+            add("compress", "C," + hx(x), "C," + hx(y))
+            x, y = rng.choice(comp), rng.choice(comp + plain)
+            t, s = G.wire_name([b"new", b"name"]), G.wire_name([b"com"])
+            add("rename", "R,%s,%s,%s,1" % (hx(x), hx(t), hx(s)), "R,%s,%s,%s,1" % (hx(y), hx(s), hx(t)))
+            r1, r2 = T.rand_record(rng), T.rand_record(rng)
+            add("synth", "Y," + hx(T.render(rng, r1)), "Y," + hx(T.render(rng, r2) if rng.random() < 0.7 else b"garbage"))
+        return cases
+
+    def oracle(self, case, io):
+        w = no_crash(io)
+        if w:
+            return w
+        if not io[0].startswith("SAME:"):
+            return "result depends on earlier or concurrent calls: " + io[0][:300]
+        return None
+
+    def classify(self, case, why):
+        return "impure"
+
+    def nontrivial(self, case, io):
+        if io and io[0].startswith("SAME:OK"):
+            _, x, y = case.line.split("|")
+            return hash(case.line) if x != y else None
+        return None
+
+    def tags(self, case, io):
+        return [io[0][:7]] if io else ["noout"]
+
+
+REGISTRY = {"C16": C16, "C17": C17, "C06": C06, "C07": C07, "C08": C08, "C09": C09, "C10": C10, "C11": C11, "C01": C01, "C18": C18, "C12": C12, "C03": C03, "C04": C04, "C05": C05, "C13": C13, "C14": C14}
